@@ -88,7 +88,15 @@ fn subject(kind: usize, seed: &[u8], reads: usize, half: bool, via_cf: bool, p: 
             let mut g = rand_hc::Hc128Rng::from_seed(s);
             add(&le_words(&s, 4));
             let mut m = crate::models::hc128::Hc128::new(&s);
-            for _ in 0..reads { g.next_u32(); }
+            // (sometimes the words are consumed by bulk requests from a block boundary)
+            let mut done = 0usize;
+            if reads % 7 == 3 {
+                let mut buf = vec![0u8; 65_536 + 64 * (reads % 5)];
+                g.fill_bytes(&mut buf);
+                done = buf.len() / 4;
+            }
+            let reads = reads + done;
+            for _ in done..reads { g.next_u32(); }
             // model advanced to the end of the current block = the core's table
             for _ in 0..((reads + 15) / 16) * 16 { m.next(); }
             add(&m.table_words().iter().map(|&w| w as u64).collect::<Vec<_>>());
@@ -182,17 +190,28 @@ pub const SUBJECTS: [&str; 8] = ["XorShiftRng", "Hc128Rng", "Hc128Core", "IsaacR
 /// compared after EVERY draw (hundreds of observation points per instance)
 fn jitter_walk(sub: &str, id: u64, r: &mut Report) {
     let mut p = Prng::new(id);
+    let rounds = *p.pick(&[1u8, 1, 3, 16]);
     let mk = |p: &mut Prng| {
-        let cls = *p.pick(&[0usize, 8, 11]);
+        let cls = *p.pick(&[0usize, 8, 11, 1, 12]);
         let t = ScriptedTimer::new(gen_script(p, cls, 300), p.u64());
         let mut g = rand_jitter::JitterRng::new_with_timer(t.closure());
-        g.set_rounds(1);
-        g
+        g.set_rounds(rounds);
+        (g, t)
     };
-    let (mut a, mut b) = (mk(&mut p), mk(&mut p));
+    let ((mut a, ta_), (mut b, tb_)) = (mk(&mut p), mk(&mut p));
     let first = fmt_both(&a);
     for k in 0..400 {
-        match k % 5 { 0 | 1 | 3 => { a.next_u32(); b.next_u32(); } 2 => { a.next_u64(); b.next_u64(); } _ => { a.timer_stats(true); b.timer_stats(true); } }
+        // now and then the timer panics inside the call (same reading offset for both,
+        // but different stuck patterns): the caller recovers; the text must not tell
+        if k % 37 == 11 {
+            let at = p.below(3 * (rounds as u64 + 2)) as usize;
+            ta_.inject_fault_after(at);
+            tb_.inject_fault_after(at);
+        }
+        let _ = guarded(|| match k % 5 { 0 | 1 | 3 => { a.next_u32(); } 2 => { a.next_u64(); } _ => { a.timer_stats(true); } });
+        let _ = guarded(|| match k % 5 { 0 | 1 | 3 => { b.next_u32(); } 2 => { b.next_u64(); } _ => { b.timer_stats(true); } });
+        ta_.clear_fault();
+        tb_.clear_fault();
         let (ta, tb) = (fmt_both(&a), fmt_both(&b));
         r.eval();
         if ta != tb || ta != first {
